@@ -884,3 +884,7 @@ Lemma filter_enum_lt {A} (P : nat * A -> bool) (args : list A) i a :
 Proof.
   intro H. apply filter_In in H. destruct H as [H _]. apply in_combine_l in H. apply in_seq in H. lia.
 Qed.
+
+(* searchSubtree reads the node at the index first: out of range is its IndexError *)
+Lemma search_subtree_none l i : nth_error l i = None -> search_subtree l i = Err EIndex.
+Proof. intro H. unfold search_subtree. now rewrite H. Qed.
